@@ -190,6 +190,85 @@ def helper_jobs(tier):
     return js
 
 
+# ---------------------------------------------------------------- order of calls across tasks
+
+def _module_state():
+    """deep copies of every mutable module-level container of the mir_eval modules (what a fresh interpreter starts from)"""
+    import copy
+    import sys
+    st = {}
+    for mn, mod in list(sys.modules.items()):
+        if mn != 'mir_eval' and not mn.startswith('mir_eval.'):
+            continue
+        for k, v in list(vars(mod).items()):
+            if k.startswith('__'):
+                continue
+            if isinstance(v, (dict, list, set)):
+                try:
+                    st[(mn, k)] = (v, copy.deepcopy(v))
+                except Exception:
+                    pass
+    return st
+
+
+def _restore_module_state(st):
+    for (mn, k), (obj, saved) in st.items():
+        import copy
+        fresh = copy.deepcopy(saved)
+        if isinstance(obj, dict):
+            dict.clear(obj)
+            dict.update(obj, fresh)
+        elif isinstance(obj, list):
+            obj[:] = fresh
+        else:
+            obj.clear()
+            obj.update(fresh)
+
+
+def interleave_job(first, then, size_first, size_then, kw_then):
+    """the result of task `then`'s evaluate() does not depend on whether task `first`'s evaluate() ran before it in the same
+    interpreter; the two histories are run from the same (restored) module state"""
+    ev_a, ev_b = E.by_task(first), E.by_task(then)
+
+    def build(ctx):
+        a = ev_a.build(ctx, size_first)
+        b = ev_b.build(ctx, size_then)
+        kw = {}
+        for k, spec in kw_then.items():
+            if spec == 'posreal':
+                kw[k] = T.posreal(ctx, 'kw_' + k)
+            else:
+                kw[k] = spec
+        return dict(a=a, b=b, kw=kw)
+
+    def body(A, inp):
+        st = _module_state()
+        try:
+            s1, r1 = A.call(lambda: ev_b.call(inp['b'], kw=inp['kw']))
+            _restore_module_state(st)
+            s0, _ = A.call(lambda: ev_a.call(inp['a']))
+            s2, r2 = A.call(lambda: ev_b.call(inp['b'], kw=inp['kw']))
+        finally:
+            _restore_module_state(st)
+        A.observe('status', (s0, s1, s2))
+        if s1 != 'ok' or s0 != 'ok':
+            return
+        A.require(s2 == 'ok' and same_result(A, r1, r2), '%s.evaluate:same-result-whether-or-not-%s.evaluate-ran-before' % (then, first))
+    return Job('C15', 'interleave[%s.evaluate then %s.evaluate(%s)]' % (first, then, ','.join(sorted(kw_then))), build, body,
+               funcs=ev_a.funcs + ev_b.funcs + ['util.filter_kwargs'], exact_floats=False, timeout_s=900, fresh_empty=True, exc_policy='body')
+
+
+INTERLEAVE = [
+    ('beat', 'onset', (1, 1), (1, 1), {'window': 'posreal'}),
+    ('onset', 'beat', (1, 1), (1, 1), {'f_measure_threshold': 'posreal'}),
+    ('tempo', 'segment', (2, 2), (1, 1, 1.0), {'beta': 'posreal'}),
+    ('segment', 'tempo', (1, 1, 1.0), (2, 2), {'tol': 0.2}),
+    ('onset', 'transcription', (1, 1), (1, 1), {'onset_tolerance': 'posreal'}),
+    ('melody', 'multipitch', (1, 0), (1, 1), {'window': 'posreal'}),
+    ('chord', 'key', (1, 1), (4, 4), {}),
+]
+
+
 def jobs(tier):
     js = []
     q = tier == 'quick'
@@ -210,4 +289,6 @@ def jobs(tier):
                                (lambda ctx, ev=ev, size=size: ev.build(ctx, size)),
                                (lambda a, ev=ev: ev.call(a)), exact_floats=ev.exact_floats, timeout_s=ev.timeout_s))
     js += helper_jobs(tier)
+    for spec in (INTERLEAVE[:6] if q else INTERLEAVE):
+        js.append(interleave_job(*spec))
     return js
